@@ -161,8 +161,9 @@ def tlc(ctx, specdir, module, cfg, workers=None, args=(), env=None, timeout=900,
     cmd = ["timeout", str(timeout), TLC, "-metadir", md, "-config", cfg,
            "-workers", str(workers or "auto")] + list(args) + [module + ".tla"]
     e = dict(os.environ)
-    if java_opts:
-        e["TLC_JAVA_OPTS"] = java_opts
+    jtmp = ctx.path("jtmp", "x")[:-2]
+    os.makedirs(jtmp, exist_ok=True)
+    e["TLC_JAVA_OPTS"] = ("-Djava.io.tmpdir=%s %s" % (jtmp, java_opts)).strip()
     if env:
         e.update({k: str(v) for k, v in env.items()})
     t0 = time.time()
